@@ -372,10 +372,19 @@ func insertYields(f *ast.File, next *int, res *Result, rel string, fset *token.F
 		}
 		return out
 	}
+	clauseBodies := map[*ast.BlockStmt]bool{} // bodies of switch/select hold clauses, not statements
 	ast.Inspect(f, func(n ast.Node) bool {
 		switch b := n.(type) {
+		case *ast.SwitchStmt:
+			clauseBodies[b.Body] = true
+		case *ast.TypeSwitchStmt:
+			clauseBodies[b.Body] = true
+		case *ast.SelectStmt:
+			clauseBodies[b.Body] = true
 		case *ast.BlockStmt:
-			b.List = doList(b.List)
+			if !clauseBodies[b] {
+				b.List = doList(b.List)
+			}
 		case *ast.CaseClause:
 			b.Body = doList(b.Body)
 		case *ast.CommClause:
@@ -463,10 +472,19 @@ func insertJoins(f *ast.File, info *types.Info) bool {
 		}
 		return out
 	}
+	clauseBodies := map[*ast.BlockStmt]bool{} // bodies of switch/select hold clauses, not statements
 	ast.Inspect(f, func(n ast.Node) bool {
 		switch b := n.(type) {
+		case *ast.SwitchStmt:
+			clauseBodies[b.Body] = true
+		case *ast.TypeSwitchStmt:
+			clauseBodies[b.Body] = true
+		case *ast.SelectStmt:
+			clauseBodies[b.Body] = true
 		case *ast.BlockStmt:
-			b.List = doList(b.List)
+			if !clauseBodies[b] {
+				b.List = doList(b.List)
+			}
 		case *ast.CaseClause:
 			b.Body = doList(b.Body)
 		case *ast.CommClause:
